@@ -33,7 +33,9 @@ EPS = 2.220446049250313e-16
 def _jax():
   import numpy as np
   import jax
-  jax.config.update('jax_enable_x64', True)
+  # persistence must also be lossless under JAX's default configuration (x64 disabled): float64 numpy data
+  # written to a dataset come back bit-identical; VERIF_X64=0 selects that configuration for a worker
+  jax.config.update('jax_enable_x64', os.environ.get('VERIF_X64', '1') != '0')
   import jax.numpy as jnp
   return np, jax, jnp
 
@@ -810,6 +812,15 @@ def run(ctx):
   res = common.parallel_map('c19', 'replay_bins', bins, nproc=len(bins), tag='all', outdir=os.path.join(ctx.out, 'par'))
   for m in res:
     ctx.mismatch(m['kind'], m['case'], m['sig'], m['detail'])
+  # the same dataset round trips under JAX's default configuration (x64 disabled): float64 states must
+  # still come back bit-identical
+  ds32 = [['dataset', c] for c in runs['dataset'].cases[ctx.seed % 3::3]]
+  res32 = common.parallel_map('c19', 'replay_bins', _bins(ds32, 2), nproc=2, tag='x64off', env={'VERIF_X64': '0'},
+                              outdir=os.path.join(ctx.out, 'par'))
+  for m in res32:
+    ctx.mismatch(m['kind'], m['case'], m['sig'] + ':x64_disabled', m['detail'])
+  ctx.replayed += len(ds32)
+  ctx.notes['dataset_cases_under_default_precision'] = len(ds32)
   for kind in _KINDS:
     cases = runs[kind].cases
     ctx.replayed += len(cases)
